@@ -7,7 +7,7 @@ EMIR = "symbolic execution of rustc MIR into z3 bit-vector formulas (mirsym), so
 
 checks = {
  "C04": dict(cat="model_checking",
-   text="Label scoping pass: src/alpha/scoper/label_references.rs (Analyzable for FunctionBody/Block/Statement, declare_label, use_label, push_scope, pop_scope) is symbolically executed from MIR on a symbolic function body - statement trees of depth <= 3 with up to 2 (thorough 3) statements per body/block, symbolic lengths and symbolic label names - and z3 decides that the output tree is what the rule prescribes node by node: a goto resolves iff a label of that name is later in the same block or later in an enclosing block (E400 otherwise: backward jumps, jumps into nested or sibling blocks, missing labels), a label clashing with such a later label is E420, nothing else changes; the pass never panics. The pass is entered through its own entry point label_references::analyze, so the Analyzer is the one the code constructs.",
+   text="Label scoping pass: src/alpha/scoper/label_references.rs (Analyzable for FunctionBody/Block/Statement, declare_label, use_label, push_scope, pop_scope) is symbolically executed from MIR on a symbolic function body - statement trees of depth <= 3 with up to 2 statements per body/block (thorough: depth 3 x width 3, depth 4 x width 2 and depth 5 x width 1), symbolic lengths and symbolic label names - and z3 decides that the output tree is what the rule prescribes node by node: a goto resolves iff a label of that name is later in the same block or later in an enclosing block (E400 otherwise: backward jumps, jumps into nested or sibling blocks, missing labels), a label clashing with such a later label is E420, nothing else changes; the pass never panics. The pass is entered through its own entry point label_references::analyze, so the Analyzer is the one the code constructs.",
    note="Bounded by depth and width; one function body. Inputs restricted to bodies whose if-branches are goto/block (else also if) without poisoned statements. Trusted: MIR dump, mirsym + models (owned reversed Vec iteration, nested Vec as label stack, slice::Iter::find, String equality on opaque tokens); encoding validated natively (guarded hook) on random bodies every run.",
    ref="DESIGN.md section 3, C04"),
  "C06": dict(cat="model_checking",
